@@ -126,6 +126,7 @@ func genC07BGV(c *Ctx) {
 	for _, s := range sets {
 		c.c07Embed(s, c.Scale(1, 6))
 		c.c07Intact(s, c.Scale(1, 8))
+		c.c07Constructors(s, c.Scale(1, 6))
 		t := s.t
 		rt := s.params.RingT()
 		rq := s.params.RingQ()
